@@ -22,6 +22,7 @@ SeqLess(u, v) == IF Len(u) # Len(v) THEN Len(u) < Len(v)
 LOCAL SX2 == INSTANCE SequencesExt
 Ordered(S) == SX2!SetToSortSeq(S, SeqLess)
 SubjectSets == [abc2 |-> Ordered(Words(Abc, 2)), abc3 |-> Ordered(Words(Abc, 3)), abc4 |-> Ordered(Words(Abc, 4)), abc5 |-> Ordered(Words(Abc, 5)),
+                aAb4 |-> Ordered(Words({97, 65, 98}, 4)),                \* both cases of one letter: case-insensitive backreferences
                 mix2 |-> Ordered(Words(Mix, 2)), mix3 |-> Ordered(Words(Mix, 3)), mix4 |-> Ordered(Words(Mix, 4))]
 SubjectsOf(name) == SubjectSets[name]
 
@@ -94,7 +95,7 @@ Families ==
          Fam("red3", 3, AtomsReduced, URep, "abc4", FALSE),
          Fam("mix0", 0, AtomsMix, UAll, "mix4", TRUE), Fam("mix1", 1, AtomsMix, UAll, "mix3", TRUE)>>
 BrefSubs == IF Quick THEN "abc4" ELSE "abc5"
-UsedSubjectSets == {Families[k].subs : k \in 1..Len(Families)} \cup {BrefSubs}
+UsedSubjectSets == {Families[k].subs : k \in 1..Len(Families)} \cup {BrefSubs, "aAb4"}
 
 \* ---------------- Enum ------------------------------------------------------------------------
 VARIABLES ph, cur, rec_i
@@ -110,7 +111,8 @@ EmitPattern == /\ ph = "fam"
                /\ IF cur.k = 0
                   THEN \E t \in SpecialFamilies[cur.top].trees : \E f \in SpecialFamilies[cur.top].fls :
                          /\ ph' = "pat" /\ UNCHANGED rec_i
-                         /\ cur' = [kind |-> "pat", fam |-> SpecialFamilies[cur.top].name, ast |-> t, src |-> Render(t), fl |-> f, subs |-> BrefSubs]
+                         /\ cur' = [kind |-> "pat", fam |-> SpecialFamilies[cur.top].name, ast |-> t, src |-> Render(t), fl |-> f,
+                                    subs |-> IF f.i THEN "aAb4" ELSE BrefSubs]
                   ELSE LET F == Families[cur.k] IN
                        \E t0 \in TreesTop(F.n, F.atoms, F.us, cur.top) :
                          LET t == Renumber(t0) IN
@@ -139,7 +141,7 @@ AllLazy(a, g) == IF a.t = "rep" THEN [a EXCEPT !.g = g, !.x = <<AllLazy(a.x[1], 
                  ELSE a
 SeqSet(q) == {q[k] : k \in 1..Len(q)}
 \* small families are checked on more subjects than the big ones
-LawSubjects(fam, f) == IF fam \in {"mix0", "mix1"} THEN SubjectsOf("mix2")
+LawSubjects(fam, f) == IF fam \in {"mix0", "mix1"} \/ f.i THEN SubjectsOf("mix2")
                        ELSE IF fam \in {"full0", "full1", "bref", "reset3"} THEN SubjectsOf("abc3") ELSE SubjectsOf("abc2")
 SyntaxLaw(a) ==
   LET src == Render(a)  p == Parse(src) IN
